@@ -28,7 +28,7 @@ def dispatch (line : String) : String :=
   | "C03" :: rest => C04.handle rest
   | "C05" :: rest => C05.handle rest
   | "C01" :: rest => Pbf.handleC01 rest
-  | "C02" :: rest => Pbf.handleC01 rest
+  | "C02" :: rest => Pbf.handleC02 rest
   | "C08" :: rest => Pbf.handleC08 rest
   | "C09" :: rest => Pbf.handleC09 rest
   | "C06" :: rest => Pbf.handleC06 rest
